@@ -620,6 +620,7 @@ func (x *Exec) term(st *State, v Val, t types.Type) *Term {
 		name := "fnval_" + sanitize(shortFuncName(v.Clo.fn))
 		if len(v.Clo.bindings) == 0 {
 			x.U.Declare(name, SInt)
+			x.closureAxiom(v.Clo.fn, name)
 			return App(name, SInt)
 		}
 		return x.freshVar(name, SInt)
